@@ -3,7 +3,7 @@ From V.lib Require Import Base.
 From V.c09 Require Import C09Model C09Spec C09BaseProofs.
 
 Lemma consistent_parts tb : consistent tb = true ->
-  is_u32 (nsamples tb) = true /\ stts_ok tb = true /\ ctts_ok tb = true /\ stsc_ok tb = true /\
+  is_u32 (nsamples tb + 1) = true /\ stts_ok tb = true /\ ctts_ok tb = true /\ stsc_ok tb = true /\
   stsz_ok tb = true /\ offsets_ok tb = true /\ stss_ok tb = true /\ sdtp_ok tb = true.
 Proof. unfold consistent. intros H. repeat (apply andb_prop in H; destruct H as [H ?]). tauto. Qed.
 
@@ -158,10 +158,78 @@ Proof.
     rewrite nthN_repeat. destruct (n - 1 <? N.of_nat (N.to_nat (sz_number (t_stsz tb)))) eqn:E1; [|lia]. eauto.
 Qed.
 
-(* sum of a sub-list *)
-Lemma sum_sizes_loop_ok sizes : forall n nr acc, 1 <= nr -> nr - 1 + N.of_nat n <= lenN sizes ->
-  forallb is_u32 sizes = true -> acc + sumN sizes < 18446744073709551616 ->
-  sum_sizes_loop sizes n nr acc = Ok (acc + sumN (sublist sizes (nr - 1) (N.of_nat n))) /\
-  sumN (sublist sizes (nr - 1) (N.of_nat n)) <= sumN sizes.
+(* ---------- GetTotalSampleSize ---------- *)
+Lemma skipn_nthN {A} (l : list A) k x : nthN l k = Some x ->
+  skipn (N.to_nat k) l = x :: skipn (N.to_nat (k + 1)) l.
 Proof.
-Abort.
+  revert k; induction l as [|y t IH]; intros k H; [discriminate|].
+  cbn [nthN] in H. destruct (k =? 0) eqn:E.
+  - injection H as ->. replace k with 0 by lia. reflexivity.
+  - replace (N.to_nat k) with (S (N.to_nat (k - 1))) by lia.
+    replace (N.to_nat (k + 1)) with (S (N.to_nat (k - 1 + 1))) by lia. cbn [skipn]. apply IH, H.
+Qed.
+
+Lemma sublist_S {A} (l : list A) k x n : nthN l k = Some x ->
+  sublist l k (N.of_nat (S n)) = x :: sublist l (k + 1) (N.of_nat n).
+Proof.
+  intros H. unfold sublist. rewrite (skipn_nthN l k x H), !Nat2N.id. reflexivity.
+Qed.
+
+Lemma sum_sizes_loop_ok sizes : forall n nr acc, 1 <= nr -> nr - 1 + N.of_nat n <= lenN sizes ->
+  acc + sumN (skipn (N.to_nat (nr - 1)) sizes) < 18446744073709551616 ->
+  sum_sizes_loop sizes n nr acc = Ok (acc + sumN (sublist sizes (nr - 1) (N.of_nat n))).
+Proof.
+  induction n as [|n IH]; intros nr acc Hnr Hlen Hb.
+  - cbn [sum_sizes_loop]. unfold sublist. cbn [N.of_nat N.to_nat firstn sumN]. f_equal. lia.
+  - cbn [sum_sizes_loop]. destruct (nthN_lt_Some sizes (nr - 1)) as [s Hs]; [lia|].
+    rewrite (idx_m1_Some _ _ _ Hnr Hs). cbn [rbind].
+    rewrite (skipn_nthN _ _ _ Hs) in Hb. cbn [sumN] in Hb.
+    rewrite (sublist_S _ _ _ _ Hs). cbn [sumN].
+    rewrite u64_small by lia. replace (nr - 1 + 1) with (nr + 1 - 1) in * by lia.
+    rewrite IH; [f_equal; lia|lia|lia|lia].
+Qed.
+
+Lemma sumN_skipn_le l k : sumN (skipn k l) <= sumN l.
+Proof. rewrite <- (firstn_skipn k l) at 2. rewrite sumN_app. lia. Qed.
+
+Lemma skipn_repeat {A} (x : A) m j : skipn j (repeat x m) = repeat x (m - j).
+Proof.
+  revert j; induction m as [|m IH]; intros j; [destruct j; reflexivity|].
+  destruct j as [|j]; [reflexivity|]. cbn [repeat skipn]. rewrite IH. reflexivity.
+Qed.
+
+Lemma firstn_repeat' {A} (x : A) m k : firstn k (repeat x m) = repeat x (Nat.min k m).
+Proof.
+  revert k; induction m as [|m IH]; intros k; [destruct k; reflexivity|].
+  destruct k as [|k]; [reflexivity|]. cbn [repeat firstn Nat.min]. rewrite IH. reflexivity.
+Qed.
+
+Lemma sizes_bound tb : consistent tb = true -> sumN (sizes tb) < 18446744073709551616.
+Proof.
+  intros H. destruct (stsz_facts tb H) as [[[U [Nn S]]|[U [Sz S]]] [HN [B [Bu Bs]]]]; rewrite S.
+  - assert (forall l, forallb is_u32 l = true -> sumN l <= lenN l * 4294967295) as G.
+    { induction l as [|x t IHl]; intros Hf; [cbn; lia|]. cbn [forallb] in Hf. apply andb_prop in Hf.
+      destruct Hf as [Hx Ht]. unfold is_u32 in Hx. cbn [sumN]. rewrite lenN_cons. specialize (IHl Ht). lia. }
+    specialize (G _ Bs). nia.
+  - rewrite sumN_repeat. nia.
+Qed.
+
+Lemma total_size_correct tb : consistent tb = true -> forall a b, 1 <= a -> b <= nsamples tb ->
+  stsz_get_total_sample_size (t_stsz tb) a b = Ok (S_total_size tb a b).
+Proof.
+  intros H a b Ha Hb. pose proof (sizes_bound tb H) as Hsb.
+  destruct (stsz_facts tb H) as [[[U [Nn S]]|[U [Sz S]]] [HN [B [Bu Bs]]]];
+    unfold stsz_get_total_sample_size, S_total_size; rewrite S in *;
+    destruct (a =? 0) eqn:E0; try lia; destruct (sz_number (t_stsz tb) <? b) eqn:E1; try lia; cbn [orb].
+  - destruct (b <? a) eqn:E2.
+    + replace (b + 1 - a) with 0 by lia. reflexivity.
+    + rewrite U. cbn [N.eqb negb].
+      rewrite (sum_sizes_loop_ok (sz_sizes (t_stsz tb)) (N.to_nat (b + 1 - a)) a 0); try lia.
+      * rewrite N2Nat.id. reflexivity.
+      * pose proof (sumN_skipn_le (sz_sizes (t_stsz tb)) (N.to_nat (a - 1))). lia.
+  - destruct (b <? a) eqn:E2.
+    + replace (b + 1 - a) with 0 by lia. reflexivity.
+    + destruct (sz_uniform (t_stsz tb) =? 0) eqn:E3; [lia|]. cbn [negb].
+      unfold sublist. rewrite skipn_repeat, firstn_repeat', sumN_repeat.
+      rewrite u64_small by nia. f_equal. nia.
+Qed.
